@@ -44,11 +44,11 @@ def run(ctx) -> None:
                       ("R16.3", "key-guarded consume, scan loop, swap-with-sentinel, guarded step, joint publish"),
                       ("R16.4", "keys compared with ==/!= only; identity only on library objects")):
         ctx.rule(rid, text)
-    for m in ("itertools._Grouper.__anext__", "itertools.GroupBy.__anext__", "itertools._GroupByState.step",
-              "itertools._GroupByState.maybe_step", "itertools._GroupByState.consume_value"):
+    for m in ("itertools._Grouper.__anext__", "itertools.GroupBy.__anext__"):
         ctx.unit(m)
     N = Names(ctx)
-    ctx.tables["derived attribute names"] = dict(vars(N))
+    ctx.tables["derived attribute names"] = {k: (v if isinstance(v, (str, type(None))) else getattr(v, "short", str(v)))
+                                             for k, v in vars(N).items()}
     r16_1_3_group(ctx, N)
     r16_2(ctx, N)
     r16_3_state(ctx, N)
@@ -62,7 +62,19 @@ class Names:
     from the parent's advance."""
 
     def __init__(self, ctx):
-        st = ctx.unit("itertools._GroupByState.step")
+        sinfo0 = ctx.pkg.cls("itertools._GroupByState")
+        st = None
+        for m in sinfo0.methods.values():
+            if m.kind == "coroutine" and any(
+                    isinstance(x, ast.Await) and isinstance(x.value, ast.Call) and (
+                        (norm(x.value.func).endswith("anext") and x.value.args and norm(x.value.args[0]).startswith("self."))
+                        or (isinstance(x.value.func, ast.Attribute) and x.value.func.attr == "__anext__"
+                            and norm(x.value.func.value).startswith("self."))) for x in own_nodes(m.node)):
+                st = m
+        if st is None:
+            raise AnalysisError("groupby machinery: no method of the state pulls the source (anchor moved)")
+        self.step_unit = st
+        self.step = st.node.name
         self.value = self.key = None
         pulled = keyed = None
         for s_ in own_nodes(st.node):
@@ -150,6 +162,15 @@ class Names:
             val = uncast(s_.value) if isinstance(s_, (ast.Assign, ast.AnnAssign)) and s_.value is not None else None
             if isinstance(tgt, ast.Name) and isinstance(val, ast.Call) and norm(val.func) in ("object", "Sentinel") :
                 self.sentinel = tgt.id
+        # the method that hands out the held item: it returns what it read from the value field
+        self.consume_unit = None
+        for m in sinfo.methods.values():
+            if m.kind == "sync" and m.node.name != "__init__" and any(
+                    isinstance(x, ast.Attribute) and isinstance(x.ctx, ast.Load) and x.attr == self.value for x in ast.walk(m.node)) \
+                    and any(isinstance(x, ast.Return) and x.value is not None and not isinstance(x.value, ast.Compare)
+                            for x in own_nodes(m.node)):
+                self.consume_unit = m
+        self.consume = self.consume_unit.node.name if self.consume_unit is not None else None
         missing = [k for k, v in vars(self).items() if v is None]
         if missing:
             raise AnalysisError(f"groupby machinery: could not derive the attribute(s) {missing} (anchor moved)")
@@ -159,8 +180,31 @@ def _is_state_expr(e: ast.AST) -> bool:
     return isinstance(e, ast.Name) and e.id == "state" or norm(e) == "self._state"
 
 
+def _view(ctx, N, short: str):
+    """what the method does, with the private helpers of the state class inlined — except the
+    two primitives the rules talk about (pull-and-publish, hand-out)"""
+    from asl.inline import private_class_policy
+    return ctx.inlined(ctx.unit(short), policy=private_class_policy, keep=(N.step, N.consume, "aclose"))
+
+
+def _sentinel_tests(ctx, u, cfg, nodes, N) -> dict:
+    """branch node -> label of the edge on which *no* item is held (value field is the marker)"""
+    from .common import name_value
+    out = {}
+    for n in nodes:
+        if n.kind != "branch":
+            continue
+        e = n.ast
+        if isinstance(e, ast.Name):
+            e = name_value(ctx, u, cfg, n, e.id)
+        if isinstance(e, ast.Compare) and len(e.ops) == 1 and isinstance(e.ops[0], (ast.Is, ast.IsNot)) \
+                and f".{N.value}" in norm(e) and f".{N.sentinel}" in norm(e):
+            out[n] = "t" if isinstance(e.ops[0], ast.Is) else "f"
+    return out
+
+
 def r16_1_3_group(ctx, N) -> None:
-    u = ctx.unit("itertools._Grouper.__anext__")
+    u = _view(ctx, N, "itertools._Grouper.__anext__")
     cfg = cfg_of(u)
     main = [n for n in cfg.nodes if not n.tag]
     live_tests = [n for n in main if n.kind == "branch" and isinstance(n.ast, ast.Compare) and len(n.ast.ops) == 1
@@ -169,7 +213,7 @@ def r16_1_3_group(ctx, N) -> None:
     ctx.check(len(live_tests) >= 1, "R16.1", u, "__anext__", "the group tests whether it is still the live group")
     cursor = [n for n in main if (n.kind == "await" and any(a[0] == "libcoro" and "_GroupByState" in a[1]
                                                             for a in ctx.vals.expr(u, n.info.get("value"), n)))
-              or (n.kind == "call" and isinstance(n.ast.func, ast.Attribute) and n.ast.func.attr in ("consume_value", "step", "maybe_step"))  # type: ignore[union-attr]
+              or (n.kind == "call" and isinstance(n.ast.func, ast.Attribute) and n.ast.func.attr in (N.consume, N.step))  # type: ignore[union-attr]
               or (n.kind == "attr" and n.ast.attr in (N.key, N.value))]  # type: ignore[union-attr]
     ctx.count("cursor_uses", len(cursor))
 
@@ -189,7 +233,7 @@ def r16_1_3_group(ctx, N) -> None:
         ok = bool(rs) and all("StopAsyncIteration" in norm(r.ast) for r in rs) and not any(n.kind in ("await", "return") for n in seg)
         ctx.check(ok, "R16.1", u, t, "a stale group ends immediately with StopAsyncIteration", node=t)
     # R16.3: consume guarded by key equality
-    consumes = [n for n in main if n.kind == "call" and isinstance(n.ast.func, ast.Attribute) and n.ast.func.attr == "consume_value"]  # type: ignore[union-attr]
+    consumes = [n for n in main if n.kind == "call" and isinstance(n.ast.func, ast.Attribute) and n.ast.func.attr == N.consume]  # type: ignore[union-attr]
     key_tests = [n for n in main if n.kind == "branch" and isinstance(n.ast, ast.Compare) and len(n.ast.ops) == 1
                  and isinstance(n.ast.ops[0], (ast.Eq, ast.NotEq)) and f".{N.group_key}" in norm(n.ast)
                  and f".{N.key}" in norm(n.ast)]
@@ -221,8 +265,7 @@ def r16_1_3_group(ctx, N) -> None:
 def r16_2(ctx, N) -> None:
     from asl.inline import private_class_policy
     # the scan may live in a helper of the (private) state class: look at what the advance does
-    u = ctx.inlined(ctx.unit("itertools.GroupBy.__anext__"), policy=private_class_policy,
-                    keep=("step", "maybe_step", "consume_value", "aclose"))
+    u = _view(ctx, N, "itertools.GroupBy.__anext__")
     cfg = cfg_of(u)
     main = [n for n in cfg.nodes if not n.tag]
     stores = [n for n in main if n.kind == "store" and any(
@@ -262,7 +305,7 @@ def r16_2(ctx, N) -> None:
     loops = [n for n in own_nodes(u.node) if isinstance(n, ast.While) and not getattr(n, "asl_once", False)]
     ok = len(loops) == 1 and isinstance(loops[0].test, ast.Compare) and isinstance(loops[0].test.ops[0], ast.Eq) \
         and f".{N.key}" in norm(loops[0].test) and _reads_target(ctx, u, cfg, loops[0], N) \
-        and any(isinstance(x, ast.Await) and norm(x.value).endswith(".step()") for b in loops[0].body for x in ast.walk(b))
+        and any(isinstance(x, ast.Await) and norm(x.value).endswith(f".{N.step}()") for b in loops[0].body for x in ast.walk(b))
     ctx.check(ok, "R16.3", u, loops[0] if loops else "__anext__", "the advance skips (steps over) the rest of the "
               "previous run: while the cursor key equals the previous target key")
     tstores = [n for n in main if n.kind == "store" and any(
@@ -315,7 +358,7 @@ def _reads_target(ctx, u, cfg, loop: ast.While, N) -> bool:
 
 
 def r16_3_state(ctx, N) -> None:
-    cv = ctx.unit("itertools._GroupByState.consume_value")
+    cv = N.consume_unit
     cfg = cfg_of(cv)
     resets = [n for n in cfg.nodes if n.kind == "store" and not n.tag and any(
         isinstance(x, ast.Attribute) and x.attr == N.value and isinstance(x.ctx, ast.Store)
@@ -336,28 +379,24 @@ def r16_3_state(ctx, N) -> None:
         else:
             ok = False
     ctx.check(ok, "R16.3", cv, "consume_value", "taking the item replaces it by the sentinel (an item is handed out once)")
-    ms = ctx.unit("itertools._GroupByState.maybe_step")
-    cfg = cfg_of(ms)
-    steps = [n for n in cfg.nodes if n.kind == "await" and not n.tag]
-    tests = [n for n in cfg.nodes if n.kind == "branch" and isinstance(n.ast, ast.Compare) and isinstance(n.ast.ops[0], (ast.Is, ast.IsNot))
-             and f".{N.value}" in norm(n.ast) and f".{N.sentinel}" in norm(n.ast)]
-    ok = len(steps) == 1 and len(tests) == 1
-    if ok:
-        t = tests[0]
-        empty_edge = "t" if isinstance(t.ast.ops[0], ast.Is) else "f"  # type: ignore[union-attr]
-        path = find_path(cfg.entry, lambda x: x is steps[0], edge_ok=lambda a, lab, b: lab not in ("e", "p") and not (a is t and lab == empty_edge))
-        ok = path is None
-    ctx.check(ok, "R16.3", ms, "maybe_step", "the cursor advances only when no unconsumed item is held (an item is never overwritten)")
-    # every other place that steps the cursor without the scan loop is guarded the same way
-    g = ctx.unit("itertools._Grouper.__anext__")
-    gcfg = cfg_of(g)
-    for a in [n for n in gcfg.nodes if n.kind == "await" and not n.tag and norm(n.info.get("value")).endswith(".step()")]:
-        gtests = [n for n in gcfg.nodes if n.kind == "branch" and isinstance(n.ast, ast.Compare)
-                  and isinstance(n.ast.ops[0], (ast.Is, ast.IsNot)) and f".{N.value}" in norm(n.ast) and f".{N.sentinel}" in norm(n.ast)]
-        path = find_path(gcfg.entry, lambda x, a=a: x is a, edge_ok=lambda p, lab, b: lab not in ("e", "p") and not (
-            p in gtests and lab == ("t" if isinstance(p.ast.ops[0], ast.Is) else "f")))
-        ctx.check(path is None and bool(gtests), "R16.3", g, a, "a group steps the cursor only when no unconsumed item is held", node=a)
-    st = ctx.unit("itertools._GroupByState.step")
+    # the cursor advances only when no unconsumed item is held: every step outside the scan loop
+    # of the advance is guarded by "the value field holds the marker"
+    for short in ("itertools._Grouper.__anext__", "itertools.GroupBy.__anext__"):
+        g = _view(ctx, N, short)
+        gcfg = cfg_of(g)
+        gmain = [n for n in gcfg.nodes if not n.tag]
+        tests = _sentinel_tests(ctx, g, gcfg, gmain, N)
+        steps = [n for n in gmain if n.kind == "await" and norm(n.info.get("value")).endswith(f".{N.step}()")
+                 and not any(k == "loop" and isinstance(a, ast.While) and isinstance(a.test, ast.Compare)
+                             and f".{N.key}" in norm(a.test) for (k, a) in n.regions)]
+        ctx.count("guarded_steps", len(steps))
+        ctx.check(bool(steps), "R16.3", g, "__anext__", "the cursor is advanced when no item is held")
+        for a in steps:
+            path = find_path(gcfg.entry, lambda x, a=a: x is a, edge_ok=lambda p, lab, b: lab not in ("e", "p") and not (
+                p in tests and lab == tests[p]))
+            ctx.check(path is None and bool(tests), "R16.3", g, a, "the cursor advances only when no unconsumed item is held "
+                      "(an item is never overwritten)", node=a, witness=pretty_path(path))
+    st = N.step_unit
     cfg = cfg_of(st)
     awaits = [n for n in cfg.nodes if n.kind == "await" and not n.tag]
     pubs = [n for n in cfg.nodes if n.kind == "store" and not n.tag and any(
